@@ -98,13 +98,16 @@ CHECKS["C20"] = ("PARTIAL by nature: that emitted code type-checks is decided by
          "receiver; (2) three callables referring to generated locals must be rejected by rustc; (3) the inventory of the code derive::* emits for the same declarations: every global path rooted at ::darling, every binder a "
          "field, a double-underscore local listed in Options/Emit.v or a known inner-scope binder, no unqualified type / variant / macro name. The compiled corpora of C01 / C09 / C16 (233 receivers) are built by every check as well.",
          "Coq proof of the hygiene clause + compilation of generated receiver crates (rustc as oracle) + emitted-code inventory through derive::*")
-CHECKS["C01"] = (RECV + "Theorems (Run/LoopProofs.v, LevelProofs.v) for ANY field list, field-type implementers, user callables and EVERY item list: the item loop IS a per-field comprehension "
+CHECKS["C01"] = (RECV + "MAIN THEOREM (Run/SpecSound.v expected_sound, Run/SpecComplete.v expected_complete; induction over the universe of receiver types): for every receiver of any depth and every meta item, "
+         "the generated parser returns Ok v EXACTLY when the independently written per-field specification Spec/C01.v gives the input the value v (soundness under wf_spec = what derive time and Rust guarantee; "
+         "completeness additionally for declarations without darling::Result fields and with struct flatten members); wf_specb, its executable test, is proved sound and evaluated on every receiver run. "
+         "Level theorems (Run/LoopProofs.v, LevelProofs.v) for ANY field list, field-type implementers, user callables and EVERY item list: the item loop IS a per-field comprehension "
          "(loop_is_spec: slot of field i = conversion of the first item addressed to it / all of them for `multiple`; flatten buffer = unaddressed items in order), a field's slot depends on its own occurrences only, "
          "reordering across fields changes nothing, and when the level succeeds every field holds exactly its initialiser applied to its final slot (own occurrences, or unclaimed items for the flatten member, else the "
-         "type's value-for-absent, else its default). The property itself is the executable per-FIELD specification Spec/C01.v `expected`, evaluated in Coq on the value the real derived code returned for 166 compiled corpus "
+         "type's value-for-absent, else its default). The property itself is the executable per-FIELD specification Spec/C01.v `expected`, evaluated in Coq on the value the real derived code returned for 193 compiled corpus "
          "receivers x receiver-directed mistake-free inputs (all six traits: element-level receivers through C08 / C16's corpus); model and code are compared on every case.",
          "Coq proof (loop invariant = per-field comprehension, for any converters) + per-field executable specification evaluated on the implementation's output; per-run differential correspondence against compiled receivers")
-CHECKS["C02"] = (RECV + "Theorems for ANY field list / implementers / callables and EVERY item list: the recorded errors are item by item what each item contributes given only its predecessors (literal, repeat, unaddressed name, "
+CHECKS["C02"] = (RECV + "Theorem C02_fails_exactly_on_mistaken_inputs: for every receiver of any depth the parser returns no value exactly when the per-field specification finds the input mistaken. Theorems for ANY field list / implementers / callables and EVERY item list: the recorded errors are item by item what each item contributes given only its predecessors (literal, repeat, unaddressed name, "
          "rejected value), exactly one error per mistaken item and none otherwise (count theorem), in input order; the loop never returns early; the level fails only through its single early return with the bundle of ALL "
          "recorded errors (loop, flatten member, missing fields). The property is Spec/C01.v: parsing fails iff `expected` is undefined, and then the error has exactly `mistakes` leaves (recursively through nested receivers, "
          "enum variants and maps), evaluated on the real output for inputs with 0-8 injected mistakes at every depth (incl. malformed nested lists).",
